@@ -93,6 +93,8 @@ def standard_lattice(seed, quick):
         {"model": "G2hole"},
         {"model": "G2cut"},
         {"model": "G2step"},
+        {"model": "G2open"},
+        {"model": "G2open", "kwargs": {"reparameterisations": "null"}},
         {"model": "G2step", "resume": "every", "kwargs": {"nlive": 10, "poolsize": 10}},
         {"kwargs": {"latent_prior": "gaussian", "constant_volume_mode": False}},
         {"kwargs": {"latent_prior": "uniform_nball"}},
